@@ -12,11 +12,14 @@
    F37, on which an option is dropped); that is the only hypothesis beyond the property text.  The proof uses the converse
    of is_valid_sound (a cluster boundary is always accepted by isValid: is_valid_spec2) and an invariant over the line
    iterator threaded through both loops, postProcessLine and every call.
-   The full line_end_allowed is FALSE of the faithful model on the truncated line (Findings/Wrap.v: f8_refuted).
+   Under BreakPolicy Never the grapheme fallback is never entered, no call returns a live nil line, and the statement
+   holds with no hypothesis beyond the property text: mandatory_break_ends_line_never (Proofs/WrapGreedy.v).
+   The former counter-example to line_end_allowed on the truncated line (finding F8: the line ended at a boundary between
+   two input runs) is repaired in the library (fix 5102a36, followed by the model).
    NOT proved (oracle check_break_positions only): the global statement over RETURNED lines "every returned line end is a
    permitted position" for non-truncated lines, and the mandatory statement on the lines returned after a live nil line
    (F37). *)
-From TV Require Import Model.Wrap Spec.Wrap Proofs.Wrap Proofs.WrapLines Proofs.WrapMand Proofs.WrapMand2.
+From TV Require Import Model.Wrap Spec.Wrap Proofs.Wrap Proofs.WrapLines Proofs.WrapMand Proofs.WrapMand2 Proofs.WrapGreedy.
 
 (* every UAX #14 candidate the breaker produces is the rune before a line boundary of the segmenter, candidates come
    in increasing order without skipping a boundary, and a candidate is required only at a mandatory boundary *)
@@ -180,4 +183,31 @@ Proof.
   cbv zeta. split; [vm_compute; reflexivity|]. split; [vm_compute; reflexivity|].
   split; [unfold valid_mandatory; vm_compute; repeat split; reflexivity|].
   eexists _, _. split; [vm_compute; reflexivity|]. vm_compute. repeat split; reflexivity.
+Qed.
+
+(* mandatory_break_ends_line for BreakPolicy Never, full: Prepare with policy Never on well-formed runs, ANY number of
+   WrapNextLine calls with ANY widths: no call returns a nil line while the wrapper stays live (the F37 pattern cannot
+   occur: it needs the grapheme fallback), and no returned line has a valid mandatory break strictly inside it. *)
+Theorem mandatory_break_ends_line_never : forall n w cfg attrs runs widths w' rs,
+  wf_runs (w_st w) runs n = true -> zlen attrs - 1 = n -> 1 <= n -> c_policy cfg = 1 ->
+  run_calls (prepare w cfg attrs runs 0 0) widths = Ok (w', rs) ->
+  no_live_nil rs = true /\ mand_ok (valid_mandatory attrs (w_st w) runs) 0 rs.
+Proof. exact mandatory_lines_never. Qed.
+Print Assumptions mandatory_break_ends_line_never.
+
+(* non-vacuity: the paragraph of mandatory_lines_example under policy Never at width 1 (narrower than every word): the
+   calls return [0,2) "a LF" (the mandatory break ends the line), [2,4) "b SP", [4,5) "c" *)
+Example mandatory_never_example :
+  let st := [[mkGlyph 0 1 1 64 64 0 0 0; mkGlyph 1 1 1 0 0 0 0 0; mkGlyph 2 1 1 64 64 0 0 0;
+              mkGlyph 3 1 1 64 0 0 0 0; mkGlyph 4 1 1 64 64 0 0 0]; []] in
+  let attrs := [4; 4; 7; 4; 5; 7] in
+  let runs := [mkOut 256 0 0 5 0 0 5 0] in
+  let cfg := mkCfg 0 0 out_zero false 1 false in
+  wf_runs st runs 5 = true /\ c_policy cfg = 1 /\ valid_mandatory attrs st runs 2
+  /\ exists w' rs, run_calls (prepare (w_zero st) cfg attrs runs 0 0) [1; 1; 1] = Ok (w', rs)
+       /\ map (fun x => (wl_next (fst x), snd x)) rs = [(2, false); (4, false); (5, true)].
+Proof.
+  cbv zeta. split; [vm_compute; reflexivity|]. split; [reflexivity|].
+  split; [unfold valid_mandatory; vm_compute; repeat split; reflexivity|].
+  eexists _, _. split; [vm_compute; reflexivity|]. vm_compute. reflexivity.
 Qed.
